@@ -97,6 +97,19 @@ fn dispatch(prop: &str, ctx: &mut Ctx) {
                 }
             }
         }
+        "dbg-import" => {
+            use harper_core::Dictionary;
+            let w = ctx.opts.get("word").cloned().unwrap_or("color".into());
+            for (i, d) in [harper_wasm::Dialect::American, harper_wasm::Dialect::British, harper_wasm::Dialect::Australian, harper_wasm::Dialect::Canadian].into_iter().enumerate() {
+                let mut l = harper_wasm::Linter::new(d);
+                let t = ctx.opts.get("text").cloned().unwrap_or(format!("Do you like the {w}?"));
+                let before: Vec<String> = l.lint(t.clone(), harper_wasm::Language::Plain).iter().map(|x| x.message()).collect();
+                l.import_words(vec![w.clone()]);
+                let after: Vec<String> = l.lint(t.clone(), harper_wasm::Language::Plain).iter().map(|x| x.message()).collect();
+                let wc: Vec<char> = w.chars().collect();
+                println!("{i} curated dialect {:?} before {:?} after {:?}", harper_core::FstDictionary::curated().get_word_metadata(&wc).map(|m| m.dialect), before, after);
+            }
+        }
         "show-md" => {
             let text = ctx.opts.get("text").cloned().unwrap_or_default().replace("\\n", "\n");
             let p = pulldown_cmark::Parser::new_ext(&text, pulldown_cmark::Options::all().difference(pulldown_cmark::Options::ENABLE_SMART_PUNCTUATION));
